@@ -445,11 +445,46 @@ def do_expectation_value_terms_sum(ctx, rng, psi, vec, sites, kind, qt, case):
         raise _Skip()
     strengths = [complex(rng.standard_normal(), rng.standard_normal() if rng.random() < 0.3 else 0) for _ in terms]
     case['options'] = {'terms': terms, 'strengths': [str(s) for s in strengths]}
-    tl = TermList(terms, strengths)
-    got, _ = psi.expectation_value_terms_sum(tl)
     exp = sum(s * dense.expval(vec, dense.term_matrix(sites, t)) for s, t in zip(strengths, terms))
+    as_array = bool(rng.random() < 0.5)
+    case['options']['strengths_as_ndarray'] = as_array
+    if as_array:
+        # the caller's prefactor array is data of the caller: building lists from it, shifting them and evaluating them (twice)
+        # must neither change it nor change the value of the sum
+        arr = np.array(strengths)
+        arr0 = arr.copy()
+        tl = TermList([list(t) for t in terms], arr)
+        got, _ = psi.expectation_value_terms_sum(tl)
+        tl_b = TermList([list(t) for t in terms], arr)
+        got_b, _ = psi.expectation_value_terms_sum(tl_b)
+        got_c, _ = psi.expectation_value_terms_sum(tl)
+        ctx.count('terms_sum.shared_prefactor_array')
+        if not np.array_equal(arr, arr0):
+            ctx.violation('TermList:changes-the-prefactor-array-of-the-caller', 'array %r became %r' % (arr0.tolist(), arr.tolist()), case)
+            return
+        if not (close(got_b, exp) and close(got_c, exp)):
+            ctx.violation('expectation_value_terms_sum:second-evaluation-differs', 'first %r, second list from the same array %r, same list '
+                          'again %r, expected %r' % (got, got_b, got_c, exp), case)
+            return
+    else:
+        tl = TermList(terms, strengths)
+        got, _ = psi.expectation_value_terms_sum(tl)
     if not close(got, exp):
         ctx.violation('expectation_value_terms_sum:wrong', 'got %r expected %r' % (got, exp), case)
+        return
+    # the same sum between two different states (bra != ket, non-unit norms, complex amplitudes)
+    if rng.random() < 0.6:
+        from tenpy.networks.mps import MPSEnvironment
+        phi, w = second_state(rng, sites, qt)
+        c1, c2 = float(rng.uniform(0.5, 2)), float(rng.uniform(0.5, 2))
+        psi.norm, phi.norm = c1, c2
+        bra, ket = w.reshape(-1) * c2, vec.reshape(-1) * c1
+        got_e, _ = MPSEnvironment(phi, psi).expectation_value_terms_sum(TermList(terms, strengths))
+        exp_e = sum(s * np.vdot(bra, dense.term_matrix(sites, t) @ ket) for s, t in zip(strengths, terms))
+        ctx.count('terms_sum.bra_ket')
+        psi.norm = 1.
+        if not close(got_e, exp_e, 1e-8):
+            ctx.violation('MPSEnvironment.expectation_value_terms_sum:wrong', 'got %r expected <bra|sum|ket> = %r' % (got_e, exp_e), case)
 
 
 def do_overlap(ctx, rng, psi, vec, sites, kind, qt, case):
